@@ -293,7 +293,15 @@ func keptSuccess(r *RuleCtx) func(Pt) bool {
 				return false
 			}
 			last := ast.Unparen(ret.Results[len(ret.Results)-1])
-			if _, isCall := last.(*ast.CallExpr); isCall && !nonNilErrExpr(r.Info, last) {
+			if call, isCall := last.(*ast.CallExpr); isCall && !nonNilErrExpr(r.Info, last) {
+				// `return u.moduleError(err)` under `if err != nil`: the wrapper returns nil only for a nil argument
+				if i := nilPreservingErrFunc(callee(r.Info, call)); i >= 0 && i < len(call.Args) && r.F.Body == r.FI.Decl.Body {
+					if v, ok := objOf(r.Info, call.Args[i]).(*types.Var); ok && !v.IsField() && v.Parent() != nil && v.Pkg() != nil && v.Parent() != v.Pkg().Scope() {
+						if r.F.KnownNonNil(v) || !r.mayReturnNil(pt, v) {
+							return false
+						}
+					}
+				}
 				return true
 			}
 			return false
